@@ -211,7 +211,9 @@ def r3(ctx):
     ctx.ob("R3", "_is_valid returns True only after every level was examined", ok, func=f, node=f.node,
            instance="_is_valid:true-after-loop", message="_is_valid can answer True before all stacked levels were checked")
     # each capacity test failing returns False immediately
-    tests = [n for n in g.nodes.values() if n.kind == "test" and ("satisfies" in n.text(300) or "_get_running_jobs" in n.text(300))]
+    from ..facts import test_text
+
+    tests = [n for n in g.nodes.values() if n.kind == "test" and ("satisfies" in test_text(f, n) or "_get_running_jobs" in test_text(f, n))]
     ctx.require(len(tests) == 2, f"C10.R3: expected 2 capacity tests in _is_valid, found {len(tests)}")
     for t in tests:
         tsucc = g.real_succ(t.id, "t")
@@ -243,11 +245,22 @@ def r4(ctx):
         ctx.ob("R4", "reserved amount is looked up by the location name with an empty default",
                dflt is not None and unparse(dflt) == "Hardware()" and key.endswith(".name"), func=f, node=c, instance="hw-reserved-lookup")
     # slots
-    cmps = [n for n in f.body_nodes() if isinstance(n, ast.Compare) and "_get_running_jobs" in unparse(n)]
+    from ..dataflow import reaching_defs as _rd
+
+    def _deref(e):
+        """a local holding the measured count (`n = len(self._get_running_jobs(..))`) stands for its defining expression"""
+        if isinstance(e, ast.Name) and getattr(e, "_parent", None) is not None:
+            ds = _rd(f, e.id, e)
+            if len(ds) == 1 and ds[0].kind == "assign" and ds[0].index is None and ds[0].value is not None:
+                return ds[0].value
+        return e
+
+    cmps = [n for n in f.body_nodes() if isinstance(n, ast.Compare) and "_get_running_jobs" in unparse(_deref(n.left))]
     ctx.require(len(cmps) == 1, "C10.R4: slot comparison not found")
     cmp_ = cmps[0]
+    left_ = _deref(cmp_.left)
     SLOTS = unparse(cmp_.comparators[0]) if isinstance(cmp_.comparators[0], ast.Name) else "slots"
-    ok = (len(cmp_.ops) == 1 and isinstance(cmp_.ops[0], ast.Lt) and isinstance(cmp_.left, ast.Call) and unparse(cmp_.left.func) == "len"
+    ok = (len(cmp_.ops) == 1 and isinstance(cmp_.ops[0], ast.Lt) and isinstance(left_, ast.Call) and unparse(left_.func) == "len"
           and isinstance(cmp_.comparators[0], ast.Name))
     par = getattr(cmp_, "_parent", None)
     neg = isinstance(par, ast.UnaryOp) and isinstance(par.op, ast.Not)
